@@ -2,30 +2,31 @@ import RustCcModel.Proofs.CountsOps3
 /-! `Counts` through the cleaner operations, and the dispatch over all operations. -/
 namespace RustCc
 open World
+variable {ex : Bool}
 
 theorem regInsert_holds (t : Id) (script k : Nat) (capId : Option Id) : (Frame.regInsert t script k capId).holds = capId.toList := by
   cases capId <;> rfl
 
-theorem reg_tail (c : Cfg) {w1 : World} (capId : Option Id) (t : Id) (script k : Nat) (h : CountsH w1 capId.toList) (htlt : t < w1.next) :
-    Counts (match (w1.heap t).cmap with
+theorem reg_tail (c : Cfg) {w1 : World} (capId : Option Id) (t : Id) (script k : Nat) (h : CountsH ex w1 capId.toList) (htlt : t < w1.next) :
+    CountsG ex (match (w1.heap t).cmap with
       | some _ => World.push { w1 with ret := .ok } (.regInsert t script k capId)
       | none =>
         if shouldCollect c ((World.push { w1 with ret := .ok } (.regInsert t script k capId)).push (.mapAlloc t)) = true then
           (((World.push { w1 with ret := .ok } (.regInsert t script k capId)).push (.mapAlloc t)).push .adjustAfter).startCollect
         else (World.push { w1 with ret := .ok } (.regInsert t script k capId)).push (.mapAlloc t)) := by
-  have h1 : CountsH { w1 with ret := .ok } capId.toList := h.ret _
-  have h2 : CountsH (World.push { w1 with ret := .ok } (.regInsert t script k capId)) [] :=
+  have h1 : CountsH ex { w1 with ret := .ok } capId.toList := h.ret _
+  have h2 : CountsH ex (World.push { w1 with ret := .ok } (.regInsert t script k capId)) [] :=
     CountsH.pushFrame (E := []) _ (by rw [regInsert_holds]; simpa using h1) (by simpa [Frame.ids] using htlt)
-  have h3 : CountsH ((World.push { w1 with ret := .ok } (.regInsert t script k capId)).push (.mapAlloc t)) [] :=
+  have h3 : CountsH ex ((World.push { w1 with ret := .ok } (.regInsert t script k capId)).push (.mapAlloc t)) [] :=
     CountsH.pushFrame (E := []) (.mapAlloc t) h2 (by simpa [Frame.ids] using htlt)
   split
-  · exact h2.toCounts
+  · exact h2.toCounts0
   · split
-    · exact (h3.pushPlain .adjustAfter rfl rfl).startCollect.toCounts
-    · exact h3.toCounts
+    · exact (h3.pushPlain .adjustAfter rfl rfl).startCollect.toCounts0
+    · exact h3.toCounts0
 
-theorem execOp_counts_reg (c : Cfg) (w : World) (self wc : Option Id) (n : NRef) (script k : Nat) (cap : Option CRef) (h : Counts w)
-    (hself : ∀ s, self = some s → s < w.next) : Counts (execOp c w self wc (.reg n script k cap)) := by
+theorem execOp_counts_reg (c : Cfg) (w : World) (self wc : Option Id) (n : NRef) (script k : Nat) (cap : Option CRef) (h : CountsG ex w)
+    (hself : ∀ s, self = some s → s < w.next) : CountsG ex (execOp c w self wc (.reg n script k cap)) := by
   have hH := h.toH
   simp only [execOp]
   split
@@ -68,8 +69,8 @@ theorem getD_lt {α} {l : List (Option α)} {i : Nat} {a : α} (h : l.getD i non
   | inr hge => simp [List.getD_eq_getElem?_getD, List.getElem?_eq_none hge] at h
 
 
-theorem clean_tail (c : Cfg) {w : World} (m : Id) (i aid : Nat) (h : CountsH w []) (hm : m < w.next) :
-    Counts (match ((w.heap m).aslots.getD i none) with
+theorem clean_tail (c : Cfg) {w : World} (m : Id) (i aid : Nat) (h : CountsH ex w []) (hm : m < w.next) :
+    CountsG ex (match ((w.heap m).aslots.getD i none) with
             | some a =>
               if a.aid = aid then
                 let w := w.upd m fun o => { o with aslots := o.aslots.set i none, afree := i :: o.afree }
@@ -84,7 +85,7 @@ theorem clean_tail (c : Cfg) {w : World} (m : Id) (i aid : Nat) (h : CountsH w [
   · rename_i a ha
     have hi := getD_lt ha
     split
-    · have h1 : CountsH (w.upd m fun o => { o with aslots := o.aslots.set i none, afree := i :: o.afree }) (a.cap.toList ++ []) := by
+    · have h1 : CountsH ex (w.upd m fun o => { o with aslots := o.aslots.set i none, afree := i :: o.afree }) (a.cap.toList ++ []) := by
         apply CountsH.updFields m _ [] a.cap.toList (by simpa using h) hm
         · intro x
           have := actIds_set_count (w.heap m).aslots i none x hi
@@ -95,19 +96,19 @@ theorem clean_tail (c : Cfg) {w : World} (m : Id) (i aid : Nat) (h : CountsH w [
           omega
         · rfl
         · rfl
-      have h2 : CountsH ((w.upd m fun o => { o with aslots := o.aslots.set i none, afree := i :: o.afree }).push (.actionEnd a.cap false)) [] := by
+      have h2 : CountsH ex ((w.upd m fun o => { o with aslots := o.aslots.set i none, afree := i :: o.afree }).push (.actionEnd a.cap false)) [] := by
         apply CountsH.pushFrame (E := [])
         · cases hc : a.cap <;> simpa [Frame.holds, hc] using h1
         · cases hc : a.cap <;> simp [Frame.ids]
       simp only []
       split
-      · refine (((h2.congr ?_ ?_ ?_ ?_ ?_ ?_ ?_).emit _).raiseLogged).toCounts <;> rfl
-      · refine (((h2.congr ?_ ?_ ?_ ?_ ?_ ?_ ?_).emit _).pushPlain _ rfl rfl).toCounts <;> rfl
-    · exact h.toCounts
-  · exact h.toCounts
+      · refine (((h2.congr ?_ ?_ ?_ ?_ ?_ ?_ ?_).emit _).raiseLogged).toCounts0 <;> rfl
+      · refine (((h2.congr ?_ ?_ ?_ ?_ ?_ ?_ ?_).emit _).pushPlain _ rfl rfl).toCounts0 <;> rfl
+    · exact h.toCounts0
+  · exact h.toCounts0
 
-theorem execOp_counts_clean (c : Cfg) (w : World) (self wc : Option Id) (k : Nat) (h : Counts w) :
-    Counts (execOp c w self wc (.clean k)) := by
+theorem execOp_counts_clean (c : Cfg) (w : World) (self wc : Option Id) (k : Nat) (h : CountsG ex w) :
+    CountsG ex (execOp c w self wc (.clean k)) := by
   have hH := h.toH
   simp only [execOp]
   split
@@ -120,17 +121,17 @@ theorem execOp_counts_clean (c : Cfg) (w : World) (self wc : Option Id) (k : Nat
         have hmlt : m < w.next := weakStrong_lt (hH.ret .ok) hstrong
         split
         · exact (h.ret _).raise
-        · have h1 : CountsH (World.cloneOk { w with ret := .ok } m) [m] := (hH.ret .ok).clone m hmlt
+        · have h1 : CountsH ex (World.cloneOk { w with ret := .ok } m) [m] := (hH.ret .ok).clone m hmlt
           split
-          · exact (CountsH.pushFrame (E := []) (.cleanEnd m false false) h1 (by simp [Frame.ids])).toCounts
+          · exact (CountsH.pushFrame (E := []) (.cleanEnd m false false) h1 (by simp [Frame.ids])).toCounts0
           · have h2 := h1.upd_same m (fun o => { o with borrowed := true }) rfl rfl
             have h3 := CountsH.pushFrame (E := []) (.cleanEnd m true false) h2 (by simp [Frame.ids])
             exact clean_tail c m i aid h3 (by simpa using hmlt)
     · exact h.congr rfl rfl rfl rfl rfl rfl rfl
 
 /-- **Every operation a script can execute preserves `Counts`.** -/
-theorem execOp_counts (c : Cfg) (w : World) (self wc : Option Id) (op : Op) (h : Counts w)
-    (hself : ∀ s, self = some s → s < w.next) : Counts (execOp c w self wc op) := by
+theorem execOp_counts (c : Cfg) (w : World) (self wc : Option Id) (op : Op) (h : CountsG ex w)
+    (hself : ∀ s, self = some s → s < w.next) : CountsG ex (execOp c w self wc op) := by
   cases op with
   | nop => exact h.ret _
   | panic => exact h.raiseLogged
